@@ -599,9 +599,9 @@ def run_haplotag(
             except VcfInvalidChromosome:
                 if skip_missing_contigs:
                     logger.info(
-                        f"Skipping reads on '{chrom}' because the contig does not exist in the VCF"
+                        f"Not tagging reads on '{chrom}' because the contig does not exist in the VCF"
                     )
-                    continue
+                    variant_table = None
                 else:
                     raise CommandLineError(
                         f"Input BAM/CRAM contains reads on contig '{chrom}', but that contig does "
